@@ -122,7 +122,7 @@ Proof. exact enum_inventory. Qed.
    every member of such an enum is listed exactly once by id *)
 Theorem C03_enum_instance_names_and_ids : forall e ns,
   map snd (inst_pairs e ns) = ns /\ (NoDup ns -> NoDup (map fst (inst_pairs e ns))).
-Proof. intros e ns. split; [apply inst_pairs_names|apply inst_pairs_ids_nodup]. Qed.
+Proof. exact inst_pairs_names_and_ids. Qed.
 (* Generator: the stub of an enum is its signature and - when the record lists instances - a brace block with one line per
    listed instance, in the order of the record, each once (the name passes through emit_name like every other name) *)
 Theorem C03_enum_stub_lists_every_instance_once : forall nc e,
